@@ -117,6 +117,7 @@ struct Handle {
     OpenPolicy pol;
     uint64_t dev_writes = 0;
     uint64_t dev_reads = 0;
+    uint64_t high_water = 0;  // highest offset reached on this handle: bytes beyond it are progress
     bool crashed = false;  // a crash fault fired on this handle
     std::string opened_in;  // step label at open time
 };
